@@ -90,6 +90,15 @@ BUILT = {
             'boundaries, a stride sample and all strings of length <=2.',
             'Lone surrogates excluded; payload batches of 48 per probe, bisected on failure.',
             'DESIGN.md 3/C08'),
+    'C09': ('exhaustive single-edit mutation of a document corpus + line splices + broken-by-construction documents + hypothesis token soup; exception-type/position/rejection oracle',
+            'Every delete/insert/replace/truncate mutant (12 or 28 edit characters) and line-boundary splice of 16 (quick) / 64 '
+            '(thorough) small well-formed documents, plus Hypothesis token soups, are parsed: only a list of Grid or a '
+            'ZincParseException (ValueError) with an in-range or (0,0) position may come out; parse_scalar may raise only '
+            'ValueError subclasses; a watchdog turns hangs into "inconclusive". ~100 kinds of documents broken by construction '
+            '(header, quotes, escapes, brackets, tag names, 3.0 constructs under 2.0) x filler values must be rejected.',
+            'str input only; bracket nesting <= 3; TAB-bearing texts are exempt from the column-range check while finding '
+            'zinc.tab-position is open.',
+            'DESIGN.md 3/C09'),
     'C14': ('exhaustive small-scope enumeration of operation histories + hypothesis histories, lock-step with a Python list model',
             'Every history of up to 4 (quick) / 5 (thorough) operations over a 27-op alphabet (append, insert, extend, +=, item '
             'assignment, del by index and slice, pop, remove, reverse, clear, continue-on-slice, refused non-dict rows and '
